@@ -367,6 +367,24 @@ theorem header2Value_eq_layout (ct fl pt : Nat) (dr : DataRep) (callId cid op : 
   repeat' split
   all_goals simp_all
 
+def bindAckLayout : List Item :=
+  [.bytes "pack:header", .int "max_xmit_frag" 2, .int "max_recv_frag" 2, .int "assoc_group" 4, .lenOf "cstr:sec_addr" 2,
+   .bytes "cstr:sec_addr", .zerosNegMod 2 "cstr:sec_addr" 4, .countOf "results" 4, .bytes "packs:results", .bytes "optpack:sec_trailer"]
+/-- `cstr:x` is `self.x.encode("utf-8") + b"\0"` when `self.x` is non-empty, `b""` otherwise -/
+def bindAckEnv (h : Header) (t : Option SecTrailer) (mx mr ag : Nat) (sa : Bytes) (results : List ContextResult) : Env where
+  ints f := if f = "max_xmit_frag" then mx else if f = "max_recv_frag" then mr else if f = "assoc_group" then ag else 0
+  bytes f := if f = "pack:header" then headerPack h else if f = "cstr:sec_addr" then .ok (if sa = [] then [] else sa ++ [0])
+    else if f = "packs:results" then packs resultPack results else if f = "optpack:sec_trailer" then optTrailerPack t else .error .keyError
+  counts f := if f = "results" then results.length else 0
+
+theorem bindAckPack_eq_layout (h : Header) (t : Option SecTrailer) (alter : Bool) (mx mr ag : Nat) (sa : Bytes) (results : List ContextResult) :
+    pduPack ⟨h, t, .bindAck alter mx mr ag sa results⟩ = Layout.pack (bindAckEnv h t mx mr ag sa results) bindAckLayout := by
+  unfold pduPack bindAckLayout
+  simp only [Layout.pack, bindAckEnv, le, packs]
+  simp (config := { decide := true }) only [if_true, if_false, bind, Except.bind, pure, Except.pure, List.append_assoc, List.append_nil]
+  repeat' split
+  all_goals simp_all
+
 end Rpc
 
 end DpapiNg
